@@ -292,7 +292,19 @@ fn run_one(cmd: &str, input: &[u8]) -> String {
         path: path.clone(), create_if_missing: true, enable_positions: true, bm25_k1: 0.9, bm25_b: 0.4,
         storage: searchlite_core::api::types::StorageType::InMemory,
       };
-      let mut idx = match searchlite_core::Index::create_with_storage(&path, searchlite_core::api::types::Schema::default_text_body(), mk_opts(), storage.clone()) { Ok(i) => i, Err(e) => return format!("ERR create {}", e) };
+      // optional "schema_add": {"numeric_fields": [..], "keyword_fields": [..], "nested_fields": [..]} extends the default schema
+      let hist_schema: searchlite_core::api::types::Schema = {
+        let mut base = serde_json::to_value(searchlite_core::api::types::Schema::default_text_body()).unwrap();
+        if let Some(add) = v["schema_add"].as_object() {
+          for (k, items) in add.iter() {
+            if let (Some(dst), Some(src)) = (base[k].as_array_mut(), items.as_array()) {
+              dst.extend(src.iter().cloned());
+            }
+          }
+        }
+        match serde_json::from_value(base) { Ok(s) => s, Err(e) => return format!("ERR schema_add {}", e) }
+      };
+      let mut idx = match searchlite_core::Index::create_with_storage(&path, hist_schema, mk_opts(), storage.clone()) { Ok(i) => i, Err(e) => return format!("ERR create {}", e) };
       let mut writer = match idx.writer() { Ok(w) => Some(w), Err(e) => return format!("ERR writer {}", e) };
       let empty = Vec::new();
       let mut log: Vec<String> = Vec::new();
